@@ -75,7 +75,7 @@ def check_heads(rep, jobs, rnd, n, tag):
     batch = []
     for j in sel:
         for v in names:
-            jj = {k: val for k, val in j.items() if k in ("files", "env", "vhfiles", "dirs", "stdin")}
+            jj = {k: val for k, val in j.items() if k in ("files", "env", "vhfiles", "dirs", "stdin", "snapshot_log_at_exit", "linger")}
             jj.update(entry="script", text=TEMPL[v] % j["text"].strip(), timeout=max(20, j.get("timeout", 0)))
             batch.append(jj)
     results = run_cases(batch)
@@ -87,6 +87,8 @@ def check_heads(rep, jobs, rnd, n, tag):
                 raise ToolError(r["tool_error"])
         base = observe(rs[0])
         for v, r in zip(names[1:], rs[1:]):
+            if v == "elseif-head" and re.search(r"\$\{?\?", j["text"]):
+                continue        # the failed first condition of the scaffolding changes what `$?` is when the line starts
             rep.cov["evaluations"] += 1
             o = observe(r)
             diff = [k for k in ("timed_out", "recs", "files", "stdout", "stderr") if o[k] != base[k]]
